@@ -241,6 +241,19 @@ theorem gen_size_calls :
     Gen.SizeFns.recordLengthCalls = ["sizeOfVarInt", "sizeOfVarInt", "sizeOfVarNullBytesIface", "sizeOfVarNullBytesIface",
       "sizeOfVarInt", "sizeOfVarString", "sizeOfVarNullBytes"] := by decide
 
+/-- the same for the Conn path (write.go / recordbatch.go): `recordSize` adds up `var…Len` of exactly what `writeRecord`
+writes, in its order; every `var…Len` helper sizes its prefix with `varIntLen`, whose zig-zag shifts are 1 and 63 and which
+counts 7 bits per byte from the threshold 0x80 (Model/RecordWriter `varIntLen`, `recordSize`; `legacyBatch_spec`) -/
+theorem gen_legacy_size_calls :
+    Gen.SizeFns.legacyRecordSizeCalls =
+      ["varIntLen", "varIntLen", "varBytesLen", "varBytesLen", "varArrayLen", "varStringLen", "varBytesLen"] ∧
+    Gen.SizeFns.legacyWriteRecordCalls =
+      ["writeVarInt", "writeInt8", "writeVarInt", "writeVarInt", "writeVarBytes", "writeVarBytes", "writeVarArray",
+        "writeVarString", "writeVarBytes"] ∧
+    Gen.SizeFns.legacyVarBytesLenCalls = ["varIntLen"] ∧ Gen.SizeFns.legacyVarStringLenCalls = ["varIntLen"] ∧
+    Gen.SizeFns.legacyVarArrayLenCalls = ["varIntLen"] ∧
+    Gen.SizeFns.legacyVarIntLenShifts = [1, 63] ∧ Gen.SizeFns.legacyVarIntLenLits = [1, 63, 0, 128, 7, 1] := by decide
+
 /-- the record length the v2 writer announces is the number of bytes the record body occupies — for EVERY record, in
 particular at the sizes where the zig-zag varint of a length is one byte longer than the unsigned one (64..127,
 8192..16383, …: seeded change C05-m7) -/
